@@ -3,7 +3,7 @@ import itertools
 
 from core import strip, is_field, key_str, key_mentions
 from facts import AnalysisBroken
-from rules import (field_load, check_init, nodeset, ev, Unevaluable, atom_from, ret_const)
+from rules import (writer_kind, field_load, check_init, nodeset, ev, Unevaluable, atom_from, ret_const)
 from props import c01
 from props import deps
 from symword import Machine
@@ -292,7 +292,7 @@ def run(ctx):
             if is_field(k, UN, "blob") or is_field(k, ST, FIELDS):
                 if Machine(fn, P).locate(s.target) is not None:
                     continue
-                kind = s.aop if s.kind in ("atomic", "sync") else "assign"
+                kind = writer_kind(s)
                 if not ((fn.name == "fiber_rwlock_init" and kind == "assign") or (fn.name.startswith("fiber_rwlock_") and kind == "cas")):
                     bad = bad or ("`%s` in %s" % (s.node.text, fn.name), s.node)
     o.check(bad is None, "CAS-only", "unexpected writer " + (bad[0] if bad else ""), site=bad[1] if bad else None, construct="rwlock state writer")
